@@ -301,6 +301,9 @@ class PokerGameState:
         self.pot = Pot(self.num_players, self.rake_fraction, self.max_rake)
         self.last_actions = {}
         self.payouts = {}
+        self.rake_paid = {}
+        self.actions = []
+        self.is_complete = False
         self.extract_antes_and_blinds()
         self.street = 0
         self.action = self.get_starting_action()
